@@ -177,7 +177,7 @@ func (u *Unit) checkMapWrite(fc *frameCtx, pc *Term, m *Term) {
 		if fr == nil || fr.Any {
 			return c.True()
 		}
-		alts := []*Term{c.Ge(c.Root(m), bound)}
+		alts := []*Term{c.Ge(c.Root(m), bound), c.Eq(m, c.Nil())}
 		for _, x := range fr.Maps {
 			alts = append(alts, c.Eq(m, x))
 		}
